@@ -329,9 +329,29 @@ def once(R, P):
         R.check(okn, "DECL", "%s:node-is-fresh-per-element" % g.name, where(g, ind[0]), "`%s` is declared with an initialiser %s" % (node_var, "inside the child loop" if inner else "before it is loaded"),
                 "`%s` is not re-initialised for each element (declared outside the loop / without initialiser): fields the declaration loader only sets conditionally (the attribute list) keep the previous sibling's values" % node_var)
     # the closing tag of the parent ends the child loop without a callback
-    brk = [b for b in f.blocks.values() if b.cond is not None and "parent_closed" in f.show(b.cond)]
     ind = user_calls(f)
-    R.check(len(brk) == 1 and ind and any(c is brk[0].cond or f.d(c) is f.d(brk[0].cond) for c, pol, b in RU.guards(f, ind[0]) if not pol), "ONCE", "traverse:closing-tag-ends-loop", "%s()" % f.name,
+    # (by role: the callback is reached only under `the byte behind '<' is not '/'` - tested in place, or through a flag that
+    # is set under that test)
+    slash_flags = set()
+    for b in f.blocks.values():
+        for el in b.elems:
+            if el["k"] == "bin" and el["op"] == "=" and (f.d(el["a"][0]) or {}).get("k") == "var" and f.is_const(RU.uncast(f, el["a"][1])) == 1:
+                ev_ = type("E", (), {"blk": b.id, "idx": 0, "seq": 0})()
+                for c_, p_, b_ in RU.guards(f, ev_):
+                    g_ = RU.cmp_norm(f, c_, p_)
+                    if g_ and g_[2] is not None and g_[1] == "==" and 47 in (f.is_const(RU.uncast(f, g_[0])), f.is_const(RU.uncast(f, g_[2]))):
+                        slash_flags.add(f.d(el["a"][0])["n"])
+    not_closing = False
+    for c, pol, b in (RU.guards(f, ind[0]) if ind else []):
+        g_ = RU.cmp_norm(f, c, pol)
+        if not g_:
+            continue
+        l_ = RU.uncast(f, g_[0])
+        if l_ is not None and l_["k"] == "var" and l_["n"] in slash_flags and g_[1] == "==" and g_[2] is None:
+            not_closing = True
+        if g_[2] is not None and g_[1] == "!=" and 47 in (f.is_const(RU.uncast(f, g_[0])), f.is_const(RU.uncast(f, g_[2]))):
+            not_closing = True
+    R.check(bool(ind) and not_closing, "ONCE", "traverse:closing-tag-ends-loop", "%s()" % f.name,
             "a '</' declaration leaves the child loop before any callback")
     written = set()
     for g in P.functions_in(FILE):
@@ -398,7 +418,24 @@ def decl(R, P):
                             ga.append(el)
     R.check(len(ga) == 1, "DECL", "name-is-first-split", where(f, ga[0]) if ga else f.name, "the element name is split 0")
     tr = f.calls("aws_byte_cursor_trim_pred")
-    R.check(len(tr) == 1 and f.show(RU.arg(f, tr[0].node, 1)).endswith("s_double_quote_fn") and "att_val_pair[1]" in argstr(f, tr[0].node, 0), "DECL", "value-trimmed-of-double-quotes", where(f, tr[0]) if tr else f.name,
+    okt = len(tr) == 1 and f.show(RU.arg(f, tr[0].node, 1)).endswith("s_double_quote_fn") and "att_val_pair[1]" in argstr(f, tr[0].node, 0)
+    if not tr:
+        # ... or the two halves of that trim applied one after the other (byte_buf.c: trim = left trim, then right trim of
+        # the result), either order, with the same predicate
+        lt, rt = f.calls("aws_byte_cursor_left_trim_pred"), f.calls("aws_byte_cursor_right_trim_pred")
+        if len(lt) == 1 and len(rt) == 1:
+            first, second = (lt[0], rt[0]) if ev_dominates(f, lt[0], rt[0]) else (rt[0], lt[0])
+            src2 = RU.strip_addr(f, RU.arg(f, second.node, 0))
+            chained = False
+            if src2 is not None and src2["k"] == "var":
+                # (its address is taken for the second call, so look at the declaration itself: initialised by the first call
+                # and never assigned)
+                inits = [RU.uncast(f, v["init"]) for e in f.all_events() if e.kind == "decl" for v in e.node["vars"] if v["n"] == src2["n"] and v.get("init") is not None]
+                assigned = [e for e in f.all_events() if e.kind == "access" and e.node["k"] == "var" and e.node["n"] == src2["n"] and e.mode in ("w", "rw")]
+                chained = len(inits) == 1 and inits[0] is first.node and not assigned
+            okt = chained and "att_val_pair[1]" in argstr(f, first.node, 0) and all(f.show(RU.arg(f, e.node, 1)).endswith("s_double_quote_fn") for e in (lt[0], rt[0]))
+            tr = [second]
+    R.check(okt, "DECL", "value-trimmed-of-double-quotes", where(f, tr[0]) if tr else f.name,
             "the attribute value is the second half trimmed with s_double_quote_fn")
     init = [e for e in f.calls("aws_array_list_init_static") if "att_val_pair_lst" in argstr(f, e.node, 0)]
     R.check(len(init) == 1 and f.is_const(RU.arg(f, init[0].node, 2)) == 2, "DECL", "pair-has-two-slots", where(f, init[0]) if init else f.name, "a name=value pair is split into at most two pieces")
@@ -437,13 +474,13 @@ def terminators(R, P):
     consts, calls = set(), set()
     found = None
     for e in f.all_events():
-        if e.kind == "decl" and any(v["n"] == "same_name" for v in e.node["vars"]):
+        if e.kind == "decl" and any(v["n"].split("$")[-1] == "same_name" for v in e.node["vars"]):  # (also inside an expanded helper)
             found = e
             for v in e.node["vars"]:
                 for x in f.walk(f.d(v["init"]), follow_refs=True):
                     if x["k"] == "bin" and x["op"] == "==":
                         c = f.is_const(RU.uncast(f, x["a"][1]))
-                        if c is not None and "name_end" in f.show(x["a"][0]):
+                        if c is not None and "name_end" in f.show(x["a"][0]):  # (prefix of an expanded helper's local included)
                             consts.add(c)
                     if x["k"] == "call" and x.get("callee"):
                         calls.add(x["callee"])
@@ -452,12 +489,14 @@ def terminators(R, P):
     # (the white-space alternative is evaluated in its own CFG block)
     blk_chain = {b.id for b in f.blocks.values() if b.term == "||"} | {found.blk}
     for c in f.calls("aws_isspace"):
-        if f.show(RU.arg(f, c.node, 0)) == "name_end" and any(c.blk == p_ or c.blk in f.preds().get(found.blk, ()) for p_ in blk_chain):
+        if f.show(RU.arg(f, c.node, 0)).split("$")[-1] == "name_end" and any(c.blk == p_ or c.blk in f.preds().get(found.blk, ()) for p_ in blk_chain):
             calls.add("aws_isspace")
     R.check(consts == {ord(">"), ord("/")} and calls == {"aws_isspace"}, "NEST-TERMINATORS", "same-name-test", where(f, found), "a nested opening of the same name is one followed by '>', '/' or white space",
             "the same-name nesting test accepts name terminators %s + %s, but a tag name ends at '>', '/' or white space (the declaration is split on ' ')" % (sorted(chr(c) for c in consts), sorted(calls)))
-    ne = [e for e in f.all_events() if e.kind == "decl" and any(v["n"] == "name_end" for v in e.node["vars"])]
-    ok = bool(ne) and "open_find_result.ptr[to_find_open.len]" in f.show(ne[0].node) and "open_find_result.len > to_find_open.len" in f.show(ne[0].node)
+    import re as _re
+    plain = lambda t_: _re.sub(r"[A-Za-z_][A-Za-z0-9_]*\$\d+\$", "", t_)  # locals of an expanded helper keep their own names
+    ne = [e for e in f.all_events() if e.kind == "decl" and any(v["n"].split("$")[-1] == "name_end" for v in e.node["vars"])]
+    ok = bool(ne) and "open_find_result.ptr[to_find_open.len]" in plain(f.show(ne[0].node)) and "open_find_result.len > to_find_open.len" in plain(f.show(ne[0].node))
     R.check(ok, "NEST-TERMINATORS", "name-end-is-the-byte-after-the-match", where(f, ne[0]) if ne else f.name, "the character tested is the one right after '<name', when there is one")
 
 
